@@ -16,11 +16,11 @@ RULE = ('cases: (1) connect() with every device reply sequence up to the length 
         'over {CNXN, CNXN(malformed banner), AUTH token, AUTH other(2,3), noise OKAY, '
         'noise WRTE, silence} x 0-2 recording signers; (2) stream histories (open with '
         'reply OKAY/CLSE/WRTE/illegal/none, device WRTE/CLSE/illegal packet, host '
-        'read/write/close) with STREAM_ID_LIMIT lowered to 8 / 70 or _last_id_used '
+        'read/write/close) with STREAM_ID_LIMIT lowered to 3 / 8 / 70 (ids reused at once with 3) or _last_id_used '
         'preset near the real limit; distinct = distinct sequence/history; non-trivial '
         '= the fake device received at least one host message that the oracle compared')
 ASSUMPTIONS = [
-    'silence is a transport read that raises the USB time-out error at once (connect) or after the call\'s time-out (streams)',
+    'silence is a transport read that raises the USB time-out error at once (logical time-out: the host is single-threaded and the device reactive, nothing can arrive later)',
     'a time-out may surface as UsbReadFailedError(timeout) or AdbTimeoutError',
     'histories are single-threaded, so the multiplexer is deterministic (threads are C14)',
     'a history ends at the first call that is expected to raise a protocol error',
@@ -69,6 +69,18 @@ def enumerated(tier):
     for seq in itertools.product(range(len(alphabet)), repeat=length):
       yield {'k': 'streams', 'limit': 8,
              'ops': [['open', 'OKAY']] + [alphabet[i] for i in seq]}
+  # local ids are reused at once (limit 3: ids 1 and 2): stale handles of
+  # closed streams next to newer streams with the same id
+  reuse = [['open', 'OKAY'], ['close', 0], ['close', 1], ['close', 2], ['read', 0],
+           ['read', 1], ['read', 2], ['dev_clse', 0], ['dev_clse', 1],
+           ['dev_wrte', 2], ['dev_wrte', 1]]
+  m = 4 if tier == 'quick' else 5
+  for length in range(1, m + 1):
+    for seq in itertools.product(range(len(reuse)), repeat=length):
+      if length == m and (sum(seq) + length) % 3:
+        continue
+      yield {'k': 'streams', 'limit': 3,
+             'ops': [['open', 'OKAY'], ['open', 'OKAY']] + [reuse[i] for i in seq]}
 
 
 DIRECTED = [
@@ -119,7 +131,7 @@ def sampled(tier, rng):
              'seq': [rng.randrange(len(CONNECT_SYMS))
                      for _ in range(rng.randint(0, 10))]}
       continue
-    limit = rng.choice([8, 8, 70, None])
+    limit = rng.choice([8, 8, 3, 4, 70, None])
     ops = []
     nopen = 0
     for _ in range(rng.randint(2, 14 if limit != 70 else 90)):
@@ -416,7 +428,10 @@ def run_streams(case):
   limit = case.get('limit') or _M['real_limit']
   ap.STREAM_ID_LIMIT = limit
   maxdata = 256
-  dev = fakeadb.FakeAdbDevice(exc, block=True)
+  # The host is single-threaded and the device reactive, so nothing can arrive
+  # later: a read on an empty transport times out at once (logical time-out;
+  # no verdict depends on the wall clock).
+  dev = fakeadb.FakeAdbDevice(exc, block=False)
   dev.feed('CNXN', 0x01000000, maxdata, 'device:SER:banner')
   conn = ap.AdbConnection.connect(dev, timeout_ms=20000)
   if case.get('preset') is not None:
@@ -484,7 +499,7 @@ def run_streams(case):
       will_timeout = reply == 'none' and not model.inbound
       nmsgs = len(dev.host_msgs)
       got = result_of(lambda: conn.open_stream(
-          'svc:%d' % i, timeout_ms=60 if reply == 'none' else 20000))
+          'svc:%d' % i, timeout_ms=20000))
       s = pending.get('stream')
       if s is None:
         # no OPEN was sent: only id exhaustion is an acceptable reason
@@ -549,8 +564,7 @@ def run_streams(case):
         want = ('ok', model.read(s))
       except ModelExc as e:
         want = ('exc', e.names)
-      tmo = 60 if want[0] == 'exc' and want[1] is TIMEOUTISH else 20000
-      got = result_of(lambda: real.read(timeout_ms=tmo))
+      got = result_of(lambda: real.read(timeout_ms=20000))
       compare(i, op, got, want)
       if got[0] == 'ok':
         s['data_read'].append(got[1])
@@ -579,7 +593,7 @@ def run_streams(case):
       # chunk by chunk; the host is single-threaded, so the order is the same.
       n_before = len(dev.host_msgs)
       will_timeout = not ack
-      got = result_of(lambda: real.write(data, timeout_ms=80 if will_timeout else 20000))
+      got = result_of(lambda: real.write(data, timeout_ms=20000))
       sent = [m for m in dev.host_msgs[n_before:] if m[2] == 'WRTE' and m[3] == s['local']]
       # model replay: inbound already contains the OKAYs appended by on_host in
       # arrival order, interleaved correctly because the host is single-threaded.
